@@ -142,6 +142,10 @@ Fixpoint has_crlf (l : bytes) : bool :=
   | _ => false
   end.
 
+(* the records that survive writing and reading: visible, no CR LF inside a field *)
+Definition record_ok (r : list bytes) : bool :=
+  negb (invisible r) && forallb (fun f => negb (has_crlf f)) r.
+
 Definition class_zero_metric (cs : list chunk) : bool :=
   existsb (fun c => Nat.eqb (nmetrics c) 0) cs && count_changes cs.
 Definition class_lone_empty_key (cs : list chunk) : bool :=
